@@ -10,16 +10,43 @@ ASSUMPTIONS = [
     "and then forgotten (their drop glue is not part of the claim)",
     "Vec<u8> writer harnesses give the destination spare capacity 16 so no reallocation is needed; the reserve() "
     "arithmetic still runs with its real arguments",
-    "outside: BufReader/BufWriter/Buffer beyond one functional-only round trip, read_to_end/read_to_string "
-    "(Vec growth: CBMC out of memory), sync-feature BiLock, Pending from the inner stream",
+    "outside this layer: BufReader/BufWriter/Buffer, copy beyond one byte, read_to_end (Vec growth: CBMC out of memory; all "
+    "decided by layer 2), read_to_string's UTF-8 step, sync-feature BiLock, Pending from the inner stream",
 ]
 
 GROUP = Group("io", name="io", jobs=10, mem_gb=14, timeout_s=900)
 PLAN = [(GROUP, {"quick": ["c11_q_"], "thorough": ["c11_t_"]})]
 
 
+BUF_ASSUMPTIONS = [
+    "layer 2 (Buffer / BufWriter / BufReader, mirsym/c11_buffer.py): buffer.rs, write/buf.rs and read/buf.rs are interpreted from "
+    "MIR (async fns as their coroutine state machines) over a ghost Vec<u8> (symbolic len / cap / content); compio-buf's Slice "
+    "and IoBuf(Mut) methods are summarised by their documented behaviour (coverage.summaries; their own correctness is C10)",
+    "one operation per check from an arbitrary well-formed buffer state (0 <= progress <= len <= cap <= isize::MAX; for BufWriter "
+    "additionally: fully flushed => reset, which every BufWriter operation is shown to preserve), so histories follow by induction",
+    "the inner writer / reader is adversarial within the AsyncWrite / AsyncRead contract: Pending, Err, or Ok(n) with a solver-chosen "
+    "n within the bytes / room offered; at most max_inner inner calls and `pendings` Pending answers per operation (bounds)",
+    "stream obligation: delivered-so-far ++ still-buffered equals previously-buffered ++ bytes reported accepted, byte for byte "
+    "(quantifier-free with one Skolem index); an Err result must leave none of the caller's bytes accepted",
+    "also in this layer: util::copy_with_size and AsyncReadExt::read_to_end / AsyncReadAtExt::read_to_end_at as whole helpers "
+    "(<= copy_inner inner calls, no Pending answers, fewer than 2^63 bytes in total), with AsyncWriteExt::write_all and the "
+    "loop_read_to_end! expansion interpreted from their own MIR; the inner stream's errors are Interrupted or not (chosen when "
+    "the code asks for the kind)",
+    "outside: BufReader::read_vectored, the UTF-8 step of read_to_string, cancellation (dropping an operation's future while it "
+    "is Pending leaves the buffer taken), allocation failure in reserve",
+]
+
+
 def run(tier):
-    return kaniprop.run("C11", tier, PLAN, ASSUMPTIONS)
+    import sys, os
+    sys.path.insert(0, os.path.join(os.path.dirname(os.path.abspath(__file__)), "..", "mirsym"))
+    import multiprop
+    import mirprop
+    from bufplan import BufPlan
+    return multiprop.run("C11", tier, [
+        ("helper-layer (kani)", lambda: kaniprop.run("C11", tier, PLAN, ASSUMPTIONS)),
+        ("buffer-layer (mirsym)", lambda: mirprop.run("C11", tier, BufPlan(), BUF_ASSUMPTIONS)),
+    ])
 
 
 def replay(path):
